@@ -50,7 +50,7 @@ def op_str(op):
 def expected_probe(e, v):
     """the report of a read item of region expression e that denotes value v (Wire.v: probe)"""
     k = e[0]
-    if k in ('own', 'mir', 'vecr', 'str', 'strof'): return v
+    if k in ('own', 'mir', 'vecr', 'str', 'strof', 'cdc'): return v
     if k in ('col', 'con'): return expected_probe(e[1], v)
     if k in ('sl', 'cols'):
         ps = [expected_probe(e[1], x) for x in v]
@@ -77,7 +77,7 @@ class RefState:
     """what the property text says a region is: per slot, the values pushed since the last clear"""
     def __init__(self): self.log = [[], [], [], []]
 
-def ref_oracle(e, ops, obs, clauses=()):
+def ref_oracle(e, ops, obs, clauses=(), model_obs=None):
     """Walk a history and its observations; return None or a failure description.
     Covers: pushes succeed, every probe/read reports exactly the value pushed at that index, item
     copies and clone_onto reproduce the value.  `clauses` are extra per-property hooks
@@ -88,6 +88,12 @@ def ref_oracle(e, ops, obs, clauses=()):
         g = obs[t]; k = op[0]
         if g and g[0] == 'CRASH': return f'op {t}: harness crashed'
         if k == 'push':
+            if g == ['P'] and model_obs is not None and contains(e, 'cdc') and t < len(model_obs) and model_obs[t] == ['P']:
+                # a refusal the proven model predicts (the dictionary cannot represent the input): legitimate, history ends
+                for c in clauses:
+                    f = c(t, ('refused',) + tuple(op[1:]), g, ref, scratch)
+                    if f: return f
+                return None
             if len(g) != 1 or not g[0].startswith('i='): return f'op {t} ({op_str(op)}): push did not return an index: {g}'
             ref.log[op[1]].append(op[3])
         elif k in ('probe', 'probeo', 'read'):
@@ -159,11 +165,11 @@ def run_regions(ctx, res, cases, oracle, mode, known_ok=True):
             e = EXPR[name]
             if any(g and g[0] in ('ILL', 'UNSUP', 'bad-history', 'unknown-entry') or (g and g[0].startswith('bad-')) for g in io):
                 raise RuntimeError(f'generator/harness bug: {name} {[op_str(o) for o in ops]} -> {io}')
-            f = oracle(e, ops, io)
+            f = oracle(e, ops, io, mo) if contains(e, 'cdc') else oracle(e, ops, io)
             if f:
                 nfail += 1
                 known = None
-                if known_ok and is_known_bad(e) and oracle(e, ops, mo):
+                if known_ok and is_known_bad(e) and (oracle(e, ops, mo, mo) if contains(e, 'cdc') else oracle(e, ops, mo)):
                     known = known_class(e, ctx.prop)
                 res.failures.append({'kind': 'oracle', 'entry': name, 'rust_type': catalogue.rust_type(e), 'profile': prof,
                                      'history': [op_str(o) for o in ops], 'what': f,
@@ -239,7 +245,7 @@ def c01(ctx):
                 else: ops.append(hg.push(0))
             ops.append(('probe', 0))
             cases.append((name, ops)); note_case(res, name, ops)
-    run_regions(ctx, res, cases, lambda e, ops, obs: ref_oracle(e, ops, obs), 'values')
+    run_regions(ctx, res, cases, lambda e, ops, obs, mo=None: ref_oracle(e, ops, obs, (), mo), 'values')
     return res
 
 
@@ -294,7 +300,7 @@ def c02(ctx):
             cases.append((name, ops)); note_case(res, name, ops)
     res.exhaustive = True
     res.extra['exhaustive_part'] = f'all push sequences of length <= {L} over 3 values per entry'
-    run_regions(ctx, res, cases, lambda e, ops, obs: ref_oracle(e, ops, obs), 'values')
+    run_regions(ctx, res, cases, lambda e, ops, obs, mo=None: ref_oracle(e, ops, obs, (), mo), 'values')
     return res
 
 # ------------------------------------------------------------------ C08
@@ -328,7 +334,7 @@ def c08(ctx):
                     p = hg.push(0); ops.append(p); ops.append(('push', 1, p[2], p[3], 'twin'))
                 ops.append(('probe', 0)); ops.append(('probe', 1))
             cases.append((name, ops)); note_case(res, name, ops)
-    run_regions(ctx, res, cases, lambda e, ops, obs: ref_oracle(e, ops, obs, [paired_clause(0, 1)]), 'full')
+    run_regions(ctx, res, cases, lambda e, ops, obs, mo=None: ref_oracle(e, ops, obs, [paired_clause(0, 1)], mo), 'full')
     return res
 
 # ------------------------------------------------------------------ C09
@@ -339,7 +345,7 @@ def c09(ctx):
                 'both copies must return identical indices; then diverging histories on both and re-reads')
     cases = []
     n = 25 if not ctx.thorough else 300
-    for name, e in ENTRIES:
+    for name, e in pick_entries(lambda nm, e: caps(e)['clone']):
         for _ in range(n):
             hg = HistGen(ctx, name, e)
             ops = gen_ops(ctx, hg, ctx.rng.choice([0, 1, 3, 6, 12]), 0, p_clear=0.05)
@@ -359,7 +365,7 @@ def c09(ctx):
             cases.append((name, ops)); note_case(res, name, ops)
     res.assumptions.append('independence of the two copies in the implementation rests on Rust ownership (no unsafe/Rc/interior '
                            'mutability in any Clone impl); the model is a value model and cannot exhibit aliasing')
-    run_regions(ctx, res, cases, lambda e, ops, obs: ref_oracle(e, ops, obs, [paired_clause(0, 1)]), 'full')
+    run_regions(ctx, res, cases, lambda e, ops, obs, mo=None: ref_oracle(e, ops, obs, [paired_clause(0, 1)], mo), 'full')
     return res
 
 # ------------------------------------------------------------------ C10
@@ -397,7 +403,9 @@ def c10(ctx):
                 p = hg.push(0); ops.append(p); ops.append(('push', 3, p[2], p[3], 'twin'))
             ops += [('probe', 0), ('probe', 3), ('probe', 1)]
             cases.append((name, ops)); note_case(res, name, ops)
-    run_regions(ctx, res, cases, lambda e, ops, obs: ref_oracle(e, ops, obs, [paired_clause(0, 1), paired_clause(0, 3)]), 'full')
+    # a coded region merged from trained sources legitimately stores (and indexes) differently from a default one
+    run_regions(ctx, res, cases, lambda e, ops, obs, mo=None: ref_oracle(
+        e, ops, obs, [paired_clause(0, 1)] + ([] if contains(e, 'cdc') else [paired_clause(0, 3)]), mo), 'full')
     return res
 
 # ------------------------------------------------------------------ C11
@@ -446,6 +454,8 @@ def c11(ctx):
             hg = HistGen(ctx, name, e); ops = []
             for _ in range(ctx.rng.choice([3, 6, 12, 20])):
                 r = ctx.rng.random()
+                if not hg.caps['clone'] and 0.07 <= r < 0.14: r = 0.5
+                if not hg.caps['serde'] and 0.17 <= r < 0.21: r = 0.5
                 if r < 0.07: ops.append(('clear', 0))
                 elif r < 0.10: ops += [('clone', 1, 0), ('push', 1, 0, hg.recent[-1] if hg.recent else hg.value()), ('probe', 1)]
                 elif r < 0.14:
@@ -465,9 +475,9 @@ def c11(ctx):
             hg = HistGen(ctx, name, e)
             ops = gen_ops(ctx, hg, ctx.rng.choice([3, 6, 12]), 0, p_clear=0.07, p_probe=0.1) + [('probe', 0)]
             cases.append((name, ops)); note_case(res, name, ops)
-    def oracle(e, ops, obs):
-        if e[0] == 'col': return ref_oracle(e, ops, obs, [heap_clause, clause_for(e)])
-        return ref_oracle(e, ops, obs)
+    def oracle(e, ops, obs, mo=None):
+        if e[0] == 'col': return ref_oracle(e, ops, obs, [heap_clause, clause_for(e)], mo)
+        return ref_oracle(e, ops, obs, (), mo)
     run_regions(ctx, res, cases, oracle, 'full')
     return res
 
@@ -496,12 +506,12 @@ def c12(ctx):
                 r = ctx.rng.random()
                 if r < 0.06: ops.append(('clear', 0))
                 elif r < 0.1: ops += [('merge', 1, [0]), hg.push(1), hg.push(1), ('probe', 1)]
-                elif r < 0.14: ops += [('clone', 2, 0), hg.push(2), ('probe', 2)]
+                elif r < 0.14 and hg.caps['clone']: ops += [('clone', 2, 0), hg.push(2), ('probe', 2)]
                 elif r < 0.2 and any(o[0] == 'push' and o[1] == 0 for o in ops): ops.append(('probe', 0))
                 else: ops.append(hg.push(0))
             ops.append(('probe', 0))
             cases.append((name, ops)); note_case(res, name, ops)
-    run_regions(ctx, res, cases, lambda e, ops, obs: ref_oracle(e, ops, obs, [dense_clause]), 'full')
+    run_regions(ctx, res, cases, lambda e, ops, obs, mo=None: ref_oracle(e, ops, obs, [dense_clause], mo), 'full')
     return res
 
 # ------------------------------------------------------------------ C13
@@ -521,7 +531,7 @@ def c13(ctx):
             cases.append((name, ops)); note_case(res, name, ops)
     res.exhaustive = True
     res.extra['exhaustive_part'] = 'all positions 0..len+1 of every item of every generated region, both representations'
-    run_regions(ctx, res, cases, lambda e, ops, obs: ref_oracle(e, ops, obs), 'values')
+    run_regions(ctx, res, cases, lambda e, ops, obs, mo=None: ref_oracle(e, ops, obs, (), mo), 'values')
     return res
 
 # ------------------------------------------------------------------ C14
@@ -544,7 +554,7 @@ def c14(ctx):
                 else: ops.append(('cloneonto', 0, j, hg.value(repeat=0.2)))
             ops += [('read', 0), ('probeo', 0), ('probe', 1), ('probeo', 1), ('read', 1)]
             cases.append((name, ops)); note_case(res, name, ops)
-    run_regions(ctx, res, cases, lambda e, ops, obs: ref_oracle(e, ops, obs), 'values')
+    run_regions(ctx, res, cases, lambda e, ops, obs, mo=None: ref_oracle(e, ops, obs, (), mo), 'values')
     return res
 
 # ------------------------------------------------------------------ C04
@@ -585,10 +595,10 @@ def c04(ctx):
             for _ in range(ctx.rng.choice([3, 6, 12])):
                 r = ctx.rng.random()
                 if r < 0.06: ops.append(('clear', 0))
-                elif r < 0.12: ops += [('clone', 1, 0), ('probe', 1)]
-                elif r < 0.17: ops += [('clonefrom', 2, 0), ('probe', 2)]
+                elif r < 0.12 and hg.caps['clone']: ops += [('clone', 1, 0), ('probe', 1)]
+                elif r < 0.17 and hg.caps['clone']: ops += [('clonefrom', 2, 0), ('probe', 2)]
                 elif r < 0.22: ops += [('merge', 1, [0, 2]), hg.push(1), ('probe', 1)]
-                elif r < 0.28: ops += [('serde', 0), ('probe', 0)]
+                elif r < 0.28 and hg.caps['serde']: ops += [('serde', 0), ('probe', 0)]
                 elif r < 0.33 and any(o[0] == 'push' and o[1] == 0 for o in ops) and not any(o[0] == 'clear' for o in ops):
                     ops += [('clear', 3), ('pushitem', 3, 0, 0, ctx.rng.random() < 0.5), ('probe', 3)]
                 else: ops.append(hg.push(0))
@@ -596,7 +606,7 @@ def c04(ctx):
             cases.append((name, ops)); note_case(res, name, ops)
     def utf8_clause(t, op, g, ref, sc):
         return None
-    run_regions(ctx, res, cases, lambda e, ops, obs: ref_oracle(e, ops, obs), 'values')
+    run_regions(ctx, res, cases, lambda e, ops, obs, mo=None: ref_oracle(e, ops, obs, (), mo), 'values')
     found, fails = src_inventory_c04()
     res.extra['source_inventory'] = found
     for f in fails:
@@ -612,7 +622,7 @@ def c16(ctx):
                 'the stride, cross u32): indices and reads must agree')
     cases = []
     n = 30 if not ctx.thorough else 400
-    for name, e in ENTRIES:
+    for name, e in pick_entries(lambda nm, e: caps(e)['serde'] and caps(e)['clone']):
         for _ in range(n):
             hg = HistGen(ctx, name, e)
             ops = gen_ops(ctx, hg, ctx.rng.choice([0, 1, 3, 6, 12]), 0, p_clear=0.05)
@@ -623,7 +633,7 @@ def c16(ctx):
             ops += [('probe', 0), ('probe', 1)]
             cases.append((name, ops)); note_case(res, name, ops)
     res.assumptions.append('serde, serde_json and the derive macros are trusted, not modelled; the model treats the round trip as the identity and the correspondence shows the implementation does too')
-    run_regions(ctx, res, cases, lambda e, ops, obs: ref_oracle(e, ops, obs, [paired_clause(0, 1)]), 'full')
+    run_regions(ctx, res, cases, lambda e, ops, obs, mo=None: ref_oracle(e, ops, obs, [paired_clause(0, 1)], mo), 'full')
     return res
 
 # ------------------------------------------------------------------ C20
@@ -673,7 +683,7 @@ def c20(ctx):
                         found.append(f'{m.group(2)}: Push<{re.sub(chr(92) + "s+", " ", m.group(1))}>')
         return sorted(found)
     res.extra['push_impls_in_source'] = inventory()
-    run_regions(ctx, res, cases, lambda e, ops, obs: ref_oracle(e, ops, obs, [paired_clause(0, 1), paired_clause(2, 3), heap_pair]), 'full')
+    run_regions(ctx, res, cases, lambda e, ops, obs, mo=None: ref_oracle(e, ops, obs, [paired_clause(0, 1), paired_clause(2, 3), heap_pair], mo), 'full')
     return res
 
 
@@ -994,7 +1004,7 @@ def simple_payload(e, v, sizes):
         if k == 'own': return sum(len(v) for v in vs) * ELEM_SIZE[e[1]]
         if k == 'mir': return 0
         if k == 'vecr': return len(vs) * ELEM_SIZE[e[1]]
-        if k == 'str': return sum(len(v) for v in vs)
+        if k in ('str', 'cdc'): return sum(len(v) for v in vs)
         if k in ('strof', 'con'): return go(e[1], vs)
         if k == 'sl':
             flat = [x for v in vs for x in v]
@@ -1014,7 +1024,7 @@ def simple_payload(e, v, sizes):
         # columns share one set of size slots per column
         nonlocal slots
         saved = list(slots); slots = iter(saved); r = go(e, vs); slots = iter(saved); return r
-    if contains(e, 'col'): return None
+    if contains(e, 'col') or contains(e, 'cdc'): return None   # deduplicating / compressing regions store less
     try: return go(e, v)
     except StopIteration: return None
 
@@ -1036,7 +1046,7 @@ def c18(ctx):
             for _ in range(ctx.rng.choice([3, 6, 12, 25])):
                 r = ctx.rng.random()
                 if r < 0.08: ops += [('clear', 0), ('heap', 0)]
-                elif r < 0.12: ops += [('clone', 1, 0), ('heap', 1)]
+                elif r < 0.12 and hg.caps['clone']: ops += [('clone', 1, 0), ('heap', 1)]
                 elif r < 0.16: ops += [('merge', 2, [0]), ('heap', 2), hg.push(2), ('heap', 2)]
                 else: ops += [hg.push(0), ('heap', 0)]
             cases.append((name, ops)); note_case(res, name, ops)
@@ -1066,14 +1076,14 @@ def c18(ctx):
             if k in ('clear', 'merge', 'clone', 'clonefrom'): sc.pop(('used', op[1]), None)
             return None
         return clause
-    def oracle(e, ops, obs):
+    def oracle(e, ops, obs, mo=None):
         name = next(n for n, x in ENTRIES if x is e)
-        return ref_oracle(e, ops, obs, [oracle_for(name)])
+        return ref_oracle(e, ops, obs, [oracle_for(name)], mo)
     run_regions(ctx, res, cases, oracle, 'values')
     return res
 
 # ================================================================== C17 allocation discipline
-VEC_BACKED = lambda nm, e: not (contains(e, 'col') or contains(e, 'con') or contains(e, 'cols')) and 'iopt' not in repr(e) and 'ilist' not in repr(e)
+VEC_BACKED = lambda nm, e: not (contains(e, 'col') or contains(e, 'con') or contains(e, 'cols') or contains(e, 'cdc')) and 'iopt' not in repr(e) and 'ilist' not in repr(e)
 
 def c17(ctx):
     res = Result()
@@ -1102,7 +1112,7 @@ def c17(ctx):
     import math
     K = 8 if not ctx.thorough else 14
     for name, e in ENTRIES:
-        if is_known_bad(e): continue
+        if is_known_bad(e) or contains(e, 'cdc'): continue   # the logarithmic bound is stated for non-coded regions
         for k in range(6, K + 1, 2):
             hg = HistGen(ctx, name, e); f = ref_form(e)
             hg.vg.big = False
@@ -1133,8 +1143,8 @@ def c17(ctx):
             sc['allocs_log'] = a
         if k == 'push': sc['npush'] = sc.get('npush', 0) + 1
         return None
-    def oracle(e, ops, obs):
-        return ref_oracle(e, ops, obs, [clause])
+    def oracle(e, ops, obs, mo=None):
+        return ref_oracle(e, ops, obs, [clause], mo)
     # correspondence: the reserved capacities cover what the model needs
     hist = [(nm, [op_str(o) for o in ops]) for nm, ops in cases]
     for prof in PROFILES:
@@ -1142,7 +1152,7 @@ def c17(ctx):
         model = lib.run_model('regions', hist, prof, NUMBERING)
         for (name, ops), io, mo in zip(cases, impl, model):
             res.evaluations += 1; e = EXPR[name]
-            f = oracle(e, ops, io)
+            f = oracle(e, ops, io, mo)
             if f:
                 res.failures.append({'kind': 'oracle', 'entry': name, 'rust_type': catalogue.rust_type(e), 'profile': prof,
                                      'history': [op_str(o) for o in ops][:200], 'what': f,
@@ -1175,7 +1185,7 @@ def vcmp(e, a, b):
     """ordering of owned values as Rust derives it: returns -1, 0, 1"""
     sgn = lambda x, y: (x > y) - (x < y)
     k = e[0]
-    if k in ('own', 'str', 'strof'): return sgn(list(a), list(b))
+    if k in ('own', 'str', 'strof', 'cdc'): return sgn(list(a), list(b))
     if k in ('mir', 'vecr'): return 0 if e[1] == 'unit' else sgn(a, b)
     if k in ('col', 'con'): return vcmp(e[1], a, b)
     if k in ('sl', 'cols'):
@@ -1263,12 +1273,108 @@ def c15(ctx):
                 return f'op {t}: antisymmetry fails for {gen.show(a)}, {gen.show(b)}'
             return None
         return clause
-    def oracle(e, ops, obs):
-        f = ref_oracle(e, ops, obs, [clause_for(e)])
-        return f
+    def oracle(e, ops, obs, mo=None):
+        return ref_oracle(e, ops, obs, [clause_for(e)], mo)
     run_regions(ctx, res, cases, oracle, 'values')
     res.assumptions.append('Huffman raw-versus-encoded item comparison is exercised by the C06 machine (huffman mode)')
     return res
 
-PROPS = {'C01': c01, 'C02': c02, 'C03': c03, 'C04': c04, 'C05': c05, 'C08': c08, 'C09': c09, 'C10': c10, 'C11': c11,
-         'C12': c12, 'C13': c13, 'C14': c14, 'C15': c15, 'C16': c16, 'C17': c17, 'C18': c18, 'C19': c19, 'C20': c20}
+
+# ================================================================== C07 dictionary codec
+def c07(ctx):
+    res = Result()
+    res.rule = ('dictionary-coded entries (bare, under StringRegion, under ConsecutiveIndexPairs, in slices, columns, '
+                'deduplicated): (A) training regions with skewed pools of 1-8 strings (incl. empty strings, strings starting '
+                'with low bytes that become tags), merge_regions over 1..3 sources in any order, then dictionary hits, '
+                'literals, literals starting with every possible tag byte, empty strings; second and third generations; '
+                'clear; (B) more than 1024 distinct strings to cross the heavy-hitter compaction. Oracle: every read '
+                'equals the pushed bytes; a push may only panic where the proven model refuses (input starts with an '
+                'assigned tag and is not in the dictionary); in the exact regime every string among the top-#free-tags '
+                'by (count desc, bytes asc) of the merged statistics is stored in exactly 1 byte; in the lossy regime the '
+                'dominating strings are')
+    cases = []
+    n = 60 if not ctx.thorough else 600
+    names = [nm for nm, e in ENTRIES if contains(e, 'cdc')]
+    def bstr(rng, lowfirst):
+        L = rng.choice([1, 1, 2, 3, 5, 9])
+        first = rng.choice([0, 1, 2, 3, 4, 5, 6, 7]) if lowfirst else rng.choice([97, 98, 99, 0x41, 0x7a])
+        return [first] + [rng.choice([0, 1, 97, 98, 0x7f]) for _ in range(L - 1)]
+    for it in range(n):
+        rng = ctx.rng
+        pool = [bstr(rng, rng.random() < 0.25) for _ in range(rng.choice([1, 2, 4, 8]))] + [[]]
+        weights = [rng.choice([1, 2, 5, 20]) for _ in pool]
+        ops = []
+        for slot in (0, 1):
+            for _ in range(rng.choice([0, 3, 10, 30])):
+                ops.append(('push', slot, 0, rng.choices(pool, weights)[0]))
+        gens = [(2, rng.choice([[0], [1], [0, 1], [1, 0], [0, 0], []])), (3, rng.choice([[2], [2, 0], [0, 2, 1]])),
+                (0, rng.choice([[3], [3, 1]]))][:rng.choice([1, 2, 3])]
+        for d, srcs in gens:
+            ops.append(('merge', d, srcs))
+            for _ in range(rng.choice([3, 8, 20])):
+                r = rng.random()
+                if r < 0.5: v = rng.choices(pool, weights)[0]
+                elif r < 0.7: v = bstr(rng, False)
+                elif r < 0.9: v = [rng.randrange(0, 12)] + [rng.choice([1, 97]) for _ in range(rng.randrange(3))]
+                else: v = []
+                ops.append(('push', d, 0, v))
+                if rng.random() < 0.2: ops.append(('read', d))
+            ops.append(('read', d))
+            if rng.random() < 0.15: ops += [('clear', d), ('push', d, 0, rng.choices(pool, weights)[0]), ('read', d)]
+        for nm in names:
+            e = EXPR[nm]
+            if shape(e) in (('list', ('n', 'u8')),):
+                cases.append((nm, ops)); note_case(res, nm, ops)
+    # all 256 first bytes against a trained dictionary
+    for nm in ('cdc',):
+        ops = [('push', 0, 0, [97, 98, 99])] * 5 + [('push', 0, 0, [100])] * 3 + [('push', 0, 0, [7, 7])] + [('merge', 1, [0])]
+        for b in range(256):
+            ops2 = ops + [('push', 1, 0, [b, 1]), ('push', 1, 0, [97, 98, 99]), ('read', 1)]
+            cases.append((nm, ops2)); note_case(res, nm, ops2)
+    # (B) the lossy regime
+    for it in range(2 if not ctx.thorough else 10):
+        many = []
+        nd = 1100 + 100 * it
+        for i in range(nd):
+            many.append([1 + (i % 3), i // 256, i % 256]); many.append([50, 7]);
+            if i % 2 == 0: many.append([51, 9, 9])
+        ctx.rng.shuffle(many)
+        ops = [('push', 0, 0, v) for v in many] + [('merge', 1, [0]), ('push', 1, 0, [50, 7]), ('push', 1, 0, [51, 9, 9]),
+               ('push', 1, 0, [1, 0, 0]), ('push', 1, 0, [9, 9]), ('read', 1), ('merge', 2, [1, 0]), ('push', 2, 0, [50, 7]), ('read', 2)]
+        cases.append(('cdc', ops)); res.nontrivial.add('lossy%d' % it)
+    def clause_for(e):
+        def clause(t, op, g, ref, sc):
+            k = op[0]
+            st = sc.setdefault('stats', {i: ({}, set(), None) for i in range(4)})   # counts, seen first bytes, dictionary
+            if k == 'push':
+                cnt, seen, dic = st[op[1]]
+                v = op[3]
+                if v:
+                    cnt[tuple(v)] = cnt.get(tuple(v), 0) + 1; seen.add(v[0])
+                if dic is not None and tuple(v) in dic and g and g[0].startswith('i='):
+                    ix = gen.parse(g[0][2:])
+                    if isinstance(ix, list) and len(ix) == 2 and all(isinstance(x, int) for x in ix) and e[0] in ('cdc', 'strof'):
+                        if ix[1] - ix[0] != 1:
+                            return f'op {t}: {gen.show(v)} dominates the merged statistics but was stored in {ix[1] - ix[0]} bytes'
+            elif k == 'clear': st[op[1]] = ({}, set(), None)
+            elif k == 'merge':
+                tot = {}; seen = set()
+                for j in op[2]:
+                    for key, c in st[j][0].items(): tot[key] = tot.get(key, 0) + c
+                    seen |= st[j][1]
+                exact = all(len(st[j][0]) < 500 for j in op[2]) and len(tot) < 500
+                free = 256 - len(seen)
+                ranked = sorted(tot.items(), key=lambda kv: (-kv[1], list(kv[0])))
+                if exact: dic = set(kk for kk, _ in ranked[:free])
+                else: dic = set(kk for kk, c in ranked[:8] if c >= 400)
+                st[op[1]] = ({}, set(), dic)
+            return None
+        return clause
+    def oracle(e, ops, obs, mo=None):
+        return ref_oracle(e, ops, obs, [clause_for(e)], mo)
+    run_regions(ctx, res, cases, oracle, 'full')
+    return res
+
+PROPS = {'C01': c01, 'C02': c02, 'C03': c03, 'C04': c04, 'C05': c05, 'C07': c07, 'C08': c08, 'C09': c09, 'C10': c10,
+         'C11': c11, 'C12': c12, 'C13': c13, 'C14': c14, 'C15': c15, 'C16': c16, 'C17': c17, 'C18': c18, 'C19': c19,
+         'C20': c20}
